@@ -397,4 +397,181 @@ theorem C09_gen_any_of (W : World (V ⊕ Err)) (as : List (Arg V)) (o : Opts) (c
       simp only [Nat.zero_add, hw.ty, hw.exact j a hj]
       cases a.exact v <;> rfl
 
+/-! ### `^` -/
+
+/-- the loop state of `^`: (early return, context, `error`, `result`, `val`, `xor`) -/
+abbrev XSt (V : Type) := Option (E V × Outcome (V ⊕ Err)) × E V × E V × E V × E V × E V
+
+/-- what the code's `xor` / `result` hold when the model's accumulator is `acc` -/
+def XorInv (acc : Option V) (res xo : E V) : Prop :=
+  xo.isNone = acc.isNone ∧ ∀ r, acc = some r → res = .val (.inl r)
+
+/-- the state the loop ends in, as far as the rest of the function reads it -/
+def XorFinal (o : Opts) (errs : List Err) (v : V) (as : List (Arg V)) (acc : Option V) (tmp : List Err) (s : XSt V) : Prop :=
+  match xorLoop o v as acc tmp with
+  | (_, tmp', true) =>
+    match handleError o ⟨errs, tmp'⟩ .oneOf with
+    | (c1, some e) => s.1 = some (encCtx o c1, .raise (encE e))
+    | (c1, none) => s.1 = none ∧ s.2.1 = encCtx o c1 ∧ s.2.2.2.2.2 = .none
+  | (acc', tmp', false) => s.1 = none ∧ s.2.1 = encCtx o ⟨errs, tmp'⟩ ∧ XorInv acc' s.2.2.2.1 s.2.2.2.2.2
+
+/-- one iteration of `^` -/
+def xorStep (o : Opts) (errs tmp : List Err) (v : V) (a : Arg V) (i : Nat) (ej res vj xo : E V) : ForInStep (XSt V) :=
+  match a.out o v with
+  | .error e => .yield (none, encCtx o ⟨errs, tmp ++ [e]⟩, ej, res, vj, xo)
+  | .ok r =>
+    if xo.isNone then .yield (none, encCtx o ⟨errs, tmp⟩, ej, .val (.inl r), .val (.inl r), .cls i)
+    else match handleError o ⟨errs, tmp⟩ .oneOf with
+      | (c1, some e) =>
+        .done (some (encCtx o c1, .raise (encE e)), encCtx o c1, .obj "OneOfViolatedError" [], res, .val (.inl r), .none)
+      | (c1, none) => .done (none, encCtx o c1, .obj "OneOfViolatedError" [], res, .val (.inl r), .none)
+
+/-- the loop of `^` on the code's own state -/
+def xorRun (o : Opts) (errs : List Err) (v : V) : List (Arg V) → Nat → List Err → E V → E V → E V → E V → XSt V
+  | [], _, tmp, ej, res, vj, xo => (none, encCtx o ⟨errs, tmp⟩, ej, res, vj, xo)
+  | a :: as, k, tmp, ej, res, vj, xo =>
+    match a.out o v with
+    | .error e => xorRun o errs v as (k + 1) (tmp ++ [e]) ej res vj xo
+    | .ok r =>
+      if xo.isNone then xorRun o errs v as (k + 1) tmp ej (.val (.inl r)) (.val (.inl r)) (.cls k)
+      else match handleError o ⟨errs, tmp⟩ .oneOf with
+        | (c1, some e) =>
+          (some (encCtx o c1, .raise (encE e)), encCtx o c1, .obj "OneOfViolatedError" [], res, .val (.inl r), .none)
+        | (c1, none) => (none, encCtx o c1, .obj "OneOfViolatedError" [], res, .val (.inl r), .none)
+
+theorem forIn_xor (g : E V → XSt V → M (V ⊕ Err) (ForInStep (XSt V))) (o : Opts) (errs : List Err) (v : V) :
+    ∀ (as : List (Arg V)) (k : Nat) (tmp : List Err) (ej res vj xo : E V),
+      (∀ (j : Nat) (a : Arg V) (tmp : List Err) (ej res vj xo : E V), as[j]? = some a →
+        g (.cls (k + j)) (none, encCtx o ⟨errs, tmp⟩, ej, res, vj, xo) = .ok (xorStep o errs tmp v a (k + j) ej res vj xo)) →
+      forIn ((List.range' k as.length).map OVal.cls) (none, encCtx o ⟨errs, tmp⟩, ej, res, vj, xo) g
+        = .ok (xorRun o errs v as k tmp ej res vj xo) := by
+  intro as
+  induction as with
+  | nil => intro k tmp ej res vj xo _; rfl
+  | cons a rest ih =>
+    intro k tmp ej res vj xo hg
+    have h0 := hg 0 a tmp ej res vj xo rfl
+    simp only [Nat.add_zero] at h0
+    have hg' : ∀ (j : Nat) (a' : Arg V) (tmp : List Err) (ej res vj xo : E V), rest[j]? = some a' →
+        g (.cls (k + 1 + j)) (none, encCtx o ⟨errs, tmp⟩, ej, res, vj, xo)
+          = .ok (xorStep o errs tmp v a' (k + 1 + j) ej res vj xo) := by
+      intro j a' tmp ej res vj xo hj
+      have := hg (j + 1) a' tmp ej res vj xo (by simpa using hj)
+      rwa [show k + (j + 1) = k + 1 + j by omega] at this
+    simp only [List.length_cons, List.range'_succ, List.map_cons, List.forIn_cons, h0, xorStep, xorRun]
+    cases hout : a.out o v with
+    | error e =>
+      simp only [bind, Except.bind]
+      exact ih (k + 1) (tmp ++ [e]) ej res vj xo hg'
+    | ok r =>
+      cases hx : xo.isNone
+      · simp only [Bool.false_eq_true, if_false]
+        cases hh : handleError o ⟨errs, tmp⟩ .oneOf with
+        | mk c1 x => cases x <;> rfl
+      · simp only [if_true, bind, Except.bind]
+        exact ih (k + 1) tmp ej _ _ _ hg'
+
+theorem xorRun_final (o : Opts) (errs : List Err) (v : V) :
+    ∀ (as : List (Arg V)) (k : Nat) (acc : Option V) (tmp : List Err) (ej res vj xo : E V),
+      XorInv acc res xo → XorFinal o errs v as acc tmp (xorRun o errs v as k tmp ej res vj xo) := by
+  intro as
+  induction as with
+  | nil =>
+    intro k acc tmp ej res vj xo hinv
+    simp [XorFinal, xorLoop, xorRun, hinv]
+  | cons a rest ih =>
+    intro k acc tmp ej res vj xo hinv
+    simp only [xorRun, XorFinal, xorLoop]
+    cases hout : a.out o v with
+    | error e => exact ih (k + 1) acc (tmp ++ [e]) ej res vj xo hinv
+    | ok r =>
+      cases acc with
+      | none =>
+        have hx : xo.isNone = true := by simpa using hinv.1
+        simp only [hx, if_true]
+        exact ih (k + 1) (some r) tmp ej _ _ _ ⟨rfl, fun r' h => by cases h; rfl⟩
+      | some r0 =>
+        have hx : xo.isNone = false := by simpa using hinv.1
+        simp only [hx, Bool.false_eq_true, if_false]
+        cases hh : handleError o ⟨errs, tmp⟩ .oneOf with
+        | mk c1 x => cases x <;> simp
+
+theorem C09_gen_one_of (W : World (V ⊕ Err)) (as : List (Arg V)) (o : Opts) (c : Ctx) (v : V)
+    (hw : WorldOk W as "^" o) :
+    Parse.logical_parse W (encCls "^" as.length) (.val (.inl v)) (encCtx o c)
+      = .ok (encCtx o (logicalXor as o c v).1,
+          match (logicalXor as o c v).2 with
+          | .ok r => .ret (.val (.inl r))
+          | .error e => .raise (encE e)) := by
+  unfold Parse.logical_parse
+  have e1 : Obj.eq (V := V ⊕ Err) (.str "^") (.str "&") = .ok false := rfl
+  have e2 : Obj.eq (V := V ⊕ Err) (.str "^") (.str "|") = .ok false := rfl
+  have e3 : Obj.eq (V := V ⊕ Err) (.str "^") (.str "^") = .ok true := rfl
+  have ht : truthy (encCtx (V := V) o c) = .ok true := rfl
+  simp only [ht, ga_comb, ga_args, e1, e2, e3, iter, bind, Except.bind, pure, Except.pure, Bool.false_eq_true, if_false,
+    if_true]
+  obtain ⟨errors, tmp⟩ := c
+  have hf := xorRun_final o errors v as 0 none tmp .none (.val (.inl v)) .none .none ⟨rfl, fun r h => by cases h⟩
+  rw [List.range_eq_range', forIn_xor _ o errors v as 0 tmp]
+  rotate_left
+  · intro j a tmp' ej res vj xo hj
+    have hc := hw.conv o j a v hj
+    simp only [Nat.zero_add, hw.enter0, ga_tr, hc, xorStep]
+    cases hout : a.out o v with
+    | error e =>
+      simp [encOut, tryCatch, tryCatchThe, MonadExceptOf.tryCatch, Except.tryCatch, isA_encE, Exc.toVal, collect_tmp_eq]
+      rfl
+    | ok r =>
+      have hn : (OVal.obj "OneOfViolatedError" [] : E V) = encE Err.oneOf := rfl
+      simp only [encOut, tryCatch, tryCatchThe, MonadExceptOf.tryCatch, Except.tryCatch, ExceptT.run, OptionT.pure,
+        OptionT.run, OptionT.mk, StateT.pure, ExceptT.pure, ExceptT.mk, pure, Except.pure]
+      simp only [EarlyReturn.runK, Continue.runK, hn, C09_gen_handle_error]
+      cases xo.isNone
+      · cases hh : handleError o ⟨errors, tmp'⟩ .oneOf with
+        | mk c1 x => cases x <;> rfl
+      · rfl
+  generalize xorRun o errors v as 0 tmp .none (.val (.inl v)) .none .none = s' at hf ⊢
+  obtain ⟨ret, cx, ej, rs, vj, xo⟩ := s'
+  simp only [XorFinal] at hf
+  simp only [logicalXor]
+  generalize xorLoop o v as none tmp = R at hf ⊢
+  obtain ⟨acc', tmp', viol⟩ := R
+  cases viol with
+  | false =>
+    simp only at hf
+    obtain ⟨rfl, rfl, hinv⟩ := hf
+    cases acc' with
+    | none =>
+      have hx : xo.isNone = true := by simpa using hinv.1
+      simp only [hx, Bool.not_true, Bool.false_eq_true, if_false]
+      rw [C09_gen_raise_error W o _ v]
+      simp only [raiseError]
+      by_cases hb : (errors.isEmpty && tmp'.isEmpty) = true <;> simp [hb]
+    | some r =>
+      have hx : xo.isNone = false := by simpa using hinv.1
+      have hr : rs = .val (.inl r) := hinv.2 r rfl
+      simp only [hx, hr, Bool.not_false, if_true, clear_tmp_eq]
+      rw [C09_gen_raise_error W o _ r]
+      simp only [raiseError]
+      cases errors <;> simp
+  | true =>
+    simp only at hf
+    cases hh : handleError o ⟨errors, tmp'⟩ .oneOf with
+    | mk c1 x =>
+      rw [hh] at hf
+      cases x with
+      | some e =>
+        simp only at hf
+        subst hf
+        simp [afterHandle, hh]
+      | none =>
+        simp only at hf
+        obtain ⟨rfl, rfl, rfl⟩ := hf
+        have hx : (OVal.none : E V).isNone = true := rfl
+        simp only [hx, Bool.not_true, Bool.false_eq_true, if_false, afterHandle, hh]
+        rw [C09_gen_raise_error W o _ v]
+        obtain ⟨e1', t1'⟩ := c1
+        simp only [raiseError]
+        by_cases hb : (e1'.isEmpty && t1'.isEmpty) = true <;> simp [hb]
+
 end Utv.GenEq.C09
